@@ -154,11 +154,67 @@ def reach_twin(r: bool, u: bool, i: bool, f0: bool, f1: bool, f2: bool, f3: bool
     return not all(v)
 
 
-HARNESSES = (['roundtrip_' + s for s in SPELLINGS] + ['pair_same'] +
+# -- the options embedded in code served by the conversion cache ------------------------
+import ast as _ast
+import inspect as _inspect
+
+
+def _cache_target(a, b=2):
+  if a > b:
+    return a - b
+  return b
+
+
+def _embedded_options(g):
+  """The options value written into the generated code of g (third argument of the
+  FunctionScope call), evaluated in the ag__ namespace."""
+  import textwrap
+  tree = _ast.parse(textwrap.dedent(_inspect.getsource(g)))
+  for n in _ast.walk(tree):
+    if (isinstance(n, _ast.Call) and isinstance(n.func, _ast.Attribute) and n.func.attr == 'FunctionScope'
+        and len(n.args) >= 3):
+      return eval(_ast.unparse(n.args[2]), {'ag__': AG})  # pylint:disable=eval-used
+  return None
+
+
+def _small(bits4):
+  r, u, i, f = bits4
+  return converter.ConversionOptions(recursive=r, user_requested=u, internal_convert_user_code=i,
+                                     optional_features=(F.BUILTIN_FUNCTIONS,) if f else None)
+
+
+def _cache_pair(bits8):
+  """One transpiler instance (real cache), one function, two requests under arbitrary option
+  values: each returned function embeds exactly the options of ITS request."""
+  tr = api.PyToPy()
+  for k in (0, 4):
+    o = _small(bits8[k:k + 4])
+    g, _, _ = tr.transform(_cache_target, converter.ProgramContext(options=o))
+    e = _embedded_options(g)
+    if e is None or not (e == o and o == e and e.as_tuple() == o.as_tuple()):
+      return False
+    if g(5) != 3 or g(1) != 2:
+      return False
+  return True
+
+
+def cache_pair(r1: bool, u1: bool, i1: bool, f1: bool, r2: bool, u2: bool, i2: bool, f2: bool) -> bool:
+  """
+  post: _
+  """
+  v = deep_realize((r1, u1, i1, f1, r2, u2, i2, f2))
+  with NoTracing():
+    return _cache_pair(v)
+
+
+HARNESSES = (['roundtrip_' + s for s in SPELLINGS] + ['pair_same'] + ['cache_pair'] +
              ['pair_toggle_%d' % k for k in range(10)] + ['call_and_uses'])
 
 
 def explain(func, args, kwargs):
+  if func == 'cache_pair':
+    return 'two requests for one function against one transpiler: options %r then %r' % (
+        _small(args[:4]).as_tuple(), _small(args[4:8]).as_tuple())
   r, u, i = args[:3]
   bits = args[3:]
   o = _mk(r, u, i, bits)
